@@ -164,8 +164,39 @@ func (x *Executor) execInstr(fr *Frame, in ssa.Instruction, st *State, reach str
 			if name != "" {
 				if x.callResults == nil {
 					x.callResults = map[string]Val{}
+					x.callReach = map[string]string{}
+					x.callCount = map[string]int{}
 				}
-				x.callResults[name] = fr.vals[t]
+				// keys: the bare name, the receiver-qualified name, and either with "#k" for the
+				// k-th call executed (in program order of the symbolic execution)
+				names := []string{name}
+				if c := t.Call.StaticCallee(); c != nil {
+					if _, key := funcKey(c); key != name {
+						names = append(names, key)
+					}
+				} else if t.Call.IsInvoke() {
+					if n, ok := t.Call.Value.Type().(*types.Named); ok {
+						names = append(names, n.Obj().Name()+"."+name)
+					}
+				}
+				for _, nm := range names {
+					x.callCount[nm]++
+					for _, k := range []string{nm, fmt.Sprintf("%s#%d", nm, x.callCount[nm])} {
+						x.callResults[k] = fr.vals[t]
+						x.callReach[k] = reach
+						if x.callArgs == nil {
+							x.callArgs = map[string][]Val{}
+						}
+						var as []Val
+						if t.Call.IsInvoke() {
+							as = append(as, x.value(fr, t.Call.Value))
+						}
+						for _, a := range t.Call.Args {
+							as = append(as, x.value(fr, a))
+						}
+						x.callArgs[k] = as
+					}
+				}
 			}
 		}
 		if before != nil {
@@ -358,7 +389,18 @@ func (x *Executor) execInstr(fr *Frame, in ssa.Instruction, st *State, reach str
 		fr.vals[t] = Val{T: u.funcConst(fn), Ty: t.Type(), Fn: fn, Bind: bind, Taint: unionTaint(bind...)}
 
 	case *ssa.Go:
-		u.unsupported("go statement")
+		// the started goroutine is not part of this function's (atomic) execution: what it is handed escapes
+		u.notes[goNote] = true
+		for _, a := range t.Call.Args {
+			x.escape(st, x.value(fr, a))
+		}
+		if !t.Call.IsInvoke() {
+			if _, isB := t.Call.Value.(*ssa.Builtin); !isB {
+				x.escape(st, x.value(fr, t.Call.Value))
+			}
+		} else {
+			x.escape(st, x.value(fr, t.Call.Value))
+		}
 	case *ssa.MakeChan:
 		// a channel is an opaque object; what is sent on it is handed to unknown code
 		u.notes[chanNote] = true
@@ -1017,6 +1059,17 @@ func (x *Executor) execSlice(fr *Frame, st *State, t *ssa.Slice, reach string) V
 			mx = x.value(fr, t.Max).T
 		}
 		x.check(fr, "slice", fmt.Sprintf("(and (<= 0 %s) (<= %s %s) (<= %s %s) (<= %s %s))", lo, lo, hi, hi, mx, mx, n), reach, "array slice bounds in range")
+		if xv.Addr != nil && xv.Addr.Kind == "global" && len(xv.Addr.Path) == 0 {
+			// a slice of a package-level array: modelled as a slice of a private copy holding the
+			// array's current value (reads are exact; a write through the slice would not reach the
+			// global, which is noted)
+			gv := x.load(st, xv.Addr, reach)
+			r := x.allocRef(st, "slice")
+			comp, _ := u.elemComp(at.Elem())
+			x.heapSet(st, comp, fmt.Sprintf("(store %s %s %s)", x.heapGet(st, comp), r, gv.T))
+			u.notes["a slice of a package-level array is modelled as a slice of a copy of its current value (writes through it do not reach the global)"] = true
+			return Val{T: u.define("sl", "Slice", fmt.Sprintf("(mk-slice %s %s (- %s %s) (- %s %s))", r, lo, hi, lo, mx, lo)), Ty: t.Type()}
+		}
 		if xv.Addr != nil && xv.Addr.Kind != "arrobj" {
 			u.unsupported("slicing an array that is not a heap object (" + xv.Addr.Kind + ")")
 			return Val{T: u.freshConst("sl", "Slice"), Ty: t.Type()}
@@ -1089,3 +1142,5 @@ func (x *Executor) execNext(fr *Frame, st *State, t *ssa.Next, reach string) {
 }
 
 const chanNote = "channels: make/send/receive/select are modelled as non-panicking, non-blocking hand-offs to unknown code (a closed or nil channel, and blocking, are not modelled)"
+
+const goNote = "go statements: a started goroutine is not part of the function's own execution (its arguments escape; its effects are not modelled)"
